@@ -46,8 +46,7 @@ Definition view_of (c : cache) : view := map e_rec (c_entries c).
 (* BrowserPrivate::updateService: (needs an SRV query, browser, effects) *)
 Definition update_service (j : nat) (v : view) (fq : bstr) (b : browser) : bool * browser * list eff :=
   let '(sname, stype) := split_fq fq in
-  if (match bs_data stype with [] => true | _ :: _ => false end)
-     || (negb (bs_eqb (b_type b) (Some browse_type)) && negb (bs_eqb stype (b_type b))) then (false, b, []) else
+  if browser_not_of_interest stype (b_type b) then (false, b, []) else
   match lookup_view stype T_PTR v with
   | [] => (false, b, [])
   | _ :: _ =>
@@ -131,7 +130,7 @@ Definition world_cache_timeout (now : Z) (ci : nat) (w : world) : world * list e
        es ++ match c_timer c' with Some d => [EStart (T_CACHE_OF ci) (d - now)] | None => [] end)
   end.
 
-Definition is_any (b : browser) : bool := bs_eqb (b_type b) (Some browse_type).
+Definition is_any (b : browser) : bool := browser_any (b_type b).
 
 (* first loop of onMessageReceived for browser j: filter by type, remember names, cache *)
 Fixpoint browser_cache_records (now : Z) (j : nat) (rs : list record) (names : list bytes) (nulls : bool) (w : world)
@@ -146,11 +145,11 @@ Fixpoint browser_cache_records (now : Z) (j : nat) (rs : list record) (names : l
           (* (cacheRecord, name to re-evaluate, browse-PTR target) *)
           let '(keep, upd, tgt) :=
             if (r_type r =? T_PTR)%N then
-              if any && bs_eqb (r_name r) (Some browse_type) then (true, None, Some (r_target r))
-              else if any || bs_eqb (r_name r) (b_type b) then (true, Some (r_target r), None)
+              if browser_ptr_browse any r (b_type b) then (true, None, Some (r_target r))
+              else if browser_ptr_type any r (b_type b) then (true, Some (r_target r), None)
               else (false, None, None)
             else if (r_type r =? T_SRV)%N || (r_type r =? T_TXT)%N then
-              if any || ends_with ([DOT] ++ bs_data (b_type b)) (bs_data (r_name r)) then (true, Some (r_name r), None)
+              if browser_srvtxt any r (b_type b) then (true, Some (r_name r), None)
               else (false, None, None)
             else (false, None, None) in
           let '(w1, e1) :=
